@@ -150,6 +150,21 @@ CLAIMED["C19"] = dict(
          "pipe properties (equivalent roughness), the hydraulic simulation used to compare heads before/after a split (tolerance 1e-3 m).",
     technique="Coq proof (field arithmetic, Permutation invariants over merge sequences) + exact-rational and identity-based differential checks")
 
+CLAIMED["C12"] = dict(
+    text="Proof (partial for the statement as a whole): the logic of the INP text codecs is modelled in Lib/Codec.v and proved: "
+         "hours:minutes:seconds and 12-hour clock texts are exact inverses of their readers for every second (incl. both 12 o'clock "
+         "hours and START CLOCKTIME), and the IF/AND/OR clause list of a rule, written and read back, keeps the meaning of every condition "
+         "EPANET's syntax can express (AND of OR-groups), while a OR (b AND c) provably changes meaning (known finding). Ties decided "
+         "inside coqc: the real codec functions on random times and the real rule writer+reader on random condition trees equal the model "
+         "exactly. Everything else in the file format (unit pairing per field, sections without a model) is exercised by whole-file "
+         "write/read/compare round trips of generated models in all ten flow units and both INP versions, incl. the second cycle; a "
+         "difference there is reported as a violation with the model as replay.",
+    ref="DESIGN.md section 5 C12",
+    note="Trusted: Coq kernel (axiom-free); Python's str/int/format for the decimal rendering of integer fields; the normal-form comparison "
+         "(tools/roundtrip.py, 1e-6 relative; 1e-5 for 6-digit control thresholds; two-decimal pressure options). NOT proved: that writer and "
+         "reader use the same unit parameter for every field (only exercised), float text formatting, QUALITY/REACTIONS/ENERGY/REPORT sections.",
+    technique="Coq proof of the codec logic (arithmetic, induction over condition trees) + exact codec correspondence + whole-file round-trip differential")
+
 NOT_YET = {
 }
 
